@@ -20,9 +20,10 @@ from vlib.sched import RandomPolicy, ReplayThenDefault, Scheduler, SLock, explor
 from vlib.shrink import ddmin
 
 META = {
-    'level_text': 'Theorems (for all interleavings of any number of connections and updaters, on the labelled transition system that '
-                  'models the repaired dispatcher): snapshot_complete, no_loss, quiescent_last_eq_cache, silent_after_deactivate, '
-                  'others_unaffected, deadlock_free.  The model is tied to frappy/protocol/dispatcher.py and modulebase.announceUpdate '
+    'level_text': 'Theorems (for all interleavings of any number of connections and updaters, all module/parameter names as strings, any '
+                  'outcome of the logging switch-off, on the labelled transition system that models the repaired dispatcher): '
+                  'snapshot_complete, no_loss, quiescent_last_eq_cache, silent_after_deactivate (+ explicit index form), '
+                  'others_unaffected, deactivate_exact (the string tests of unsubscribe = the matching deactivate), deadlock_free.  The model is tied to frappy/protocol/dispatcher.py and modulebase.announceUpdate '
                   'by replaying every explored schedule of the real code label by label (lock acquire/release, send, end) on the model '
                   'and comparing the global observable trace and the final cache; the Lean monitors of Spec/C08 judge every '
                   'implementation trace.',
@@ -49,13 +50,16 @@ META = {
 }
 
 ERRS = [(HardwareError, HardwareError.name), (CommunicationFailedError, CommunicationFailedError.name)]
-FLOATS = ['value', 'p', 'q']          # attribute names updaters assign to (exported as value, _p, _q)
-UNKNOWN = 900
+# attribute names updaters assign to; exported as value, target, target_max, _a, _ab: `target`/`target_max` and `_a`/`_ab`
+# are prefix-related specifiers, as are the module names T / T2 / T_x used by the scenarios
+FLOATS = ['value', 'a', 'ab', 'target', 'target_max']
 
 
 class M(Readable):
-    p = Parameter('x', FloatRange(), default=0.0, readonly=False)
-    q = Parameter('y', FloatRange(), default=0.0, readonly=False)
+    a = Parameter('x', FloatRange(), default=0.0, readonly=False)
+    ab = Parameter('y', FloatRange(), default=0.0, readonly=False)
+    target = Parameter('t', FloatRange(), default=0.0, readonly=False)
+    target_max = Parameter('tm', FloatRange(), default=0.0, readonly=False, export='target_max')
 
     @Command()
     def go(self):
@@ -67,11 +71,11 @@ class M(Readable):
     def read_status(self):
         return self.status
 
-    def read_p(self):
-        return self.p
+    def read_a(self):
+        return self.a
 
-    def read_q(self):
-        return self.q
+    def read_ab(self):
+        return self.ab
 
 
 def entry_of(pobj):
@@ -109,19 +113,14 @@ class Info:
             self.pars[mn] = [pobj.export for pobj in pobjs]
             self.attr[mn] = {pobj.name: pobj.export for pobj in pobjs}
 
-    def mid(self, mn):
-        return self.mods.index(mn) if mn in self.mods else UNKNOWN
+    def mid(self, mn):          # names travel as they are: the Lean side parses specifiers like the dispatcher does
+        return mn
 
     def pid(self, mn, export):
-        return self.pars[mn].index(export) if mn in self.pars and export in self.pars[mn] else UNKNOWN
+        return export
 
     def scope(self, spec):
-        if not spec:
-            return None
-        if ':' in spec:
-            mn, pn = spec.split(':', 1)
-            return [self.mid(mn), self.pid(mn, pn)]
-        return [self.mid(spec)]
+        return spec or None
 
     def req(self, r):
         return [r[0], self.scope(r[1])] if r[0] in ('activate', 'deactivate') else [r[0]]
@@ -206,6 +205,16 @@ def run_case(case, policy):
                 if pobj.export and pobj.readerror:      # `value` starts as "not initialized"
                     mo.announceUpdate(pobj.name, pobj.value)
         cache0 = info.cache(node)
+        if case.get('broken_logging'):
+            # remote logging not set up: no RemoteLogHandler above the module loggers, so that
+            # Module.setRemoteLogging -> ValueError('remote handler not found') on every *IDN? and disconnect
+            # (mlzlog children carry copies of the parent's handlers and do not propagate)
+            node.root.removeHandler(node.loghandler)
+            for mo in node.modules.values():
+                log = mo.log
+                while log is not None:
+                    log.removeHandler(node.loghandler)
+                    log = log.parent
 
         def mkcb(m_id, p_id, pobj):
             def cb(*value_err):
@@ -231,8 +240,12 @@ def run_case(case, policy):
                 events.append(['reqStart', cid, rj])
                 conn.current = rj
                 if r[0] == 'disconnect':
-                    node.disconnect(conn)          # no reply is sent
-                    events.append(['reply', cid, rj, True])
+                    try:
+                        node.disconnect(conn)      # no reply is sent; an exception is only logged by the real handler
+                        ok = True
+                    except Exception:
+                        ok = False
+                    events.append(['reply', cid, rj, ok])
                     conn.current = None
                     break
                 if r[0] == 'ident':
@@ -270,8 +283,8 @@ def run_case(case, policy):
         del registry[k]
     if result['aborted'] not in (None, 'deadlock'):
         raise RuntimeError(f'scheduler aborted ({result["aborted"]}) on case {json.dumps(case)}')
-    setup = {'mods': [[info.mid(mn), list(range(len(info.pars[mn])))] for mn in info.mods],
-             'conns': sorted(conns), 'cache': cache0}
+    setup = {'mods': [[mn, list(info.pars[mn])] for mn in info.mods],
+             'conns': sorted(conns), 'cache': cache0, 'logFails': sorted(conns) if case.get('broken_logging') else []}
     obs = {'events': events, 'cache': cache1, 'result': result, 'setup': setup, 'stat': stat, 'blocked': blocked,
            'sched': [[_tid(t), _label(l, info)] for t, l in s.trace],
            'handlers': [[cid, [info.req(r) for r in scr]] for cid, scr in hs],
@@ -367,53 +380,75 @@ def judge_case(ctx, case):
 # ----------------------------------------------------------------------------------------
 # scenarios
 # ----------------------------------------------------------------------------------------
-def scn(kind, mods, handlers, updaters):
-    return kind, {'mods': mods, 'nconn': len(handlers), 'handlers': {str(i + 1): h for i, h in enumerate(handlers)},
-                  'updaters': {str(i + 1): u for i, u in enumerate(updaters)}}
+def scn(kind, mods, handlers, updaters, broken_logging=False):
+    case = {'mods': mods, 'nconn': len(handlers), 'handlers': {str(i + 1): h for i, h in enumerate(handlers)},
+            'updaters': {str(i + 1): u for i, u in enumerate(updaters)}}
+    if broken_logging:
+        case['broken_logging'] = True
+    return kind, case
 
 
 A, D, I, X = 'activate', 'deactivate', ['ident'], ['disconnect']
 V, E = (lambda n: ['v', n]), (lambda k: ['e', k])
 
 CATALOGUE = [
-    scn('act-deact-global', ['a'], [[[A, None], [D, None]]], [[['a', 'value', V(1)], ['a', 'value', V(2)]]]),
-    scn('act-ident', ['a'], [[[A, None], I]], [[['a', 'value', V(1)], ['a', 'p', V(2)]]]),
-    scn('act-disconnect', ['a'], [[[A, None], X]], [[['a', 'value', V(1)], ['a', 'q', V(2)]]]),
-    scn('act-mod-deact-global', ['a'], [[[A, 'a'], [D, None]]], [[['a', 'value', V(1)], ['a', 'value', V(2)]]]),
-    scn('act-par-deact-mod', ['a'], [[[A, 'a:value'], [D, 'a']]], [[['a', 'value', V(1)], ['a', 'p', V(2)]]]),
-    scn('double-activate', ['a'], [[[A, 'a'], [A, 'a'], [D, 'a']]], [[['a', 'value', V(1)], ['a', 'value', V(2)]]]),
-    scn('deact-without-act', ['a'], [[[D, None], [D, 'a'], [A, 'a:value']]], [[['a', 'value', V(4)]]]),
-    scn('invalid-specifiers', ['a'], [[[A, 'zz'], [A, 'a:nosuch'], [A, 'a:go'], [D, 'a:go'], [A, 'a:value']]],
-        [[['a', 'value', V(1)], ['a', 'value', V(2)]]]),
-    scn('two-conns', ['a'], [[[A, None], [D, None]], [[A, 'a'], [D, 'a']]], [[['a', 'value', V(1)], ['a', 'p', V(2)]]]),
-    scn('three-conns-two-mods', ['a', 'b'], [[[A, None]], [[A, 'a:value'], I], [[A, 'b'], X]],
-        [[['a', 'value', V(1)], ['b', 'value', V(2)]]]),
-    scn('errors', ['a'], [[[A, 'a:value'], [D, 'a:value']]], [[['a', 'value', E(0)], ['a', 'value', E(0)], ['a', 'value', V(3)]]]),
-    scn('two-updaters-one-par', ['a'], [[[A, 'a']]], [[['a', 'value', V(1)], ['a', 'value', V(2)]], [['a', 'value', V(3)]]]),
-    scn('two-updaters-two-mods', ['a', 'b'], [[[A, None], [D, None]]],
-        [[['a', 'value', V(1)], ['b', 'value', V(2)]], [['b', 'p', V(5)], ['a', 'p', E(1)]]]),
-    scn('act-par-other-par', ['a'], [[[A, 'a:_p']]], [[['a', 'value', V(1)], ['a', 'p', V(2)]]]),
-    scn('reactivate', ['a'], [[[A, None], [D, None], [A, None]]], [[['a', 'value', V(1)], ['a', 'value', V(2)], ['a', 'value', V(3)]]]),
-    scn('two-conns-same-par', ['a'], [[[A, 'a:value']], [[A, 'a:value'], [D, 'a:value']]], [[['a', 'value', V(1)], ['a', 'value', V(2)]]]),
-    scn('error-vs-activate', ['a'], [[[A, 'a:value'], I]], [[['a', 'value', E(0)]], [['a', 'value', E(1)], ['a', 'value', E(1)]]]),
-    scn('global-and-mod', ['a', 'b'], [[[A, None], [A, 'b'], [D, None]]], [[['b', 'value', V(1)], ['a', 'value', V(2)], ['b', 'q', V(3)]]]),
+    scn('act-deact-global', ['T'], [[[A, None], [D, None]]], [[['T', 'value', V(1)], ['T', 'value', V(2)]]]),
+    scn('act-ident', ['T'], [[[A, None], I]], [[['T', 'value', V(1)], ['T', 'a', V(2)]]]),
+    scn('act-disconnect', ['T'], [[[A, None], X]], [[['T', 'value', V(1)], ['T', 'ab', V(2)]]]),
+    scn('act-mod-deact-global', ['T'], [[[A, 'T'], [D, None]]], [[['T', 'value', V(1)], ['T', 'value', V(2)]]]),
+    scn('act-par-deact-mod', ['T'], [[[A, 'T:value'], [D, 'T']]], [[['T', 'value', V(1)], ['T', 'a', V(2)]]]),
+    scn('double-activate', ['T'], [[[A, 'T'], [A, 'T'], [D, 'T']]], [[['T', 'value', V(1)], ['T', 'value', V(2)]]]),
+    scn('deact-without-act', ['T'], [[[D, None], [D, 'T'], [A, 'T:value']]], [[['T', 'value', V(4)]]]),
+    scn('invalid-specifiers', ['T'], [[[A, 'zz'], [A, 'T:nosuch'], [A, 'T:go'], [D, 'T:go'], [A, 'T:value']]],
+        [[['T', 'value', V(1)], ['T', 'value', V(2)]]]),
+    scn('two-conns', ['T'], [[[A, None], [D, None]], [[A, 'T'], [D, 'T']]], [[['T', 'value', V(1)], ['T', 'a', V(2)]]]),
+    scn('three-conns-two-mods', ['T', 'T2'], [[[A, None]], [[A, 'T:value'], I], [[A, 'T2'], X]],
+        [[['T', 'value', V(1)], ['T2', 'value', V(2)]]]),
+    scn('errors', ['T'], [[[A, 'T:value'], [D, 'T:value']]], [[['T', 'value', E(0)], ['T', 'value', E(0)], ['T', 'value', V(3)]]]),
+    scn('two-updaters-one-par', ['T'], [[[A, 'T']]], [[['T', 'value', V(1)], ['T', 'value', V(2)]], [['T', 'value', V(3)]]]),
+    scn('two-updaters-two-mods', ['T', 'T2'], [[[A, None], [D, None]]],
+        [[['T', 'value', V(1)], ['T2', 'value', V(2)]], [['T2', 'a', V(5)], ['T', 'a', E(1)]]]),
+    scn('act-par-other-par', ['T'], [[[A, 'T:_a']]], [[['T', 'value', V(1)], ['T', 'a', V(2)]]]),
+    scn('reactivate', ['T'], [[[A, None], [D, None], [A, None]]], [[['T', 'value', V(1)], ['T', 'value', V(2)], ['T', 'value', V(3)]]]),
+    scn('two-conns-same-par', ['T'], [[[A, 'T:value']], [[A, 'T:value'], [D, 'T:value']]], [[['T', 'value', V(1)], ['T', 'value', V(2)]]]),
+    scn('error-vs-activate', ['T'], [[[A, 'T:value'], I]], [[['T', 'value', E(0)]], [['T', 'value', E(1)], ['T', 'value', E(1)]]]),
+    scn('global-and-mod', ['T', 'T2'], [[[A, None], [A, 'T2'], [D, None]]], [[['T2', 'value', V(1)], ['T', 'value', V(2)], ['T2', 'ab', V(3)]]]),
+    # ---- specifiers that are string prefixes of one another (unsubscribe must use the exact key / the `module:` prefix)
+    scn('prefix-params', ['T'], [[[A, 'T:target'], [A, 'T:target_max'], [D, 'T:target']]],
+        [[['T', 'target_max', V(1)], ['T', 'target', V(2)], ['T', 'target_max', V(3)]]]),
+    scn('prefix-params-custom', ['T'], [[[A, 'T:_ab'], [A, 'T:_a'], [D, 'T:_a']]], [[['T', 'ab', V(1)], ['T', 'a', V(2)], ['T', 'ab', V(3)]]]),
+    scn('prefix-modules', ['T', 'T2', 'T_x'], [[[A, 'T2'], [A, 'T'], [A, 'T_x:value'], [D, 'T']]],
+        [[['T2', 'value', V(1)], ['T_x', 'value', V(2)], ['T2', 'a', V(3)]]]),
+    scn('prefix-modules-par', ['T', 'T2'], [[[A, 'T2:value'], [A, 'T:value'], [D, 'T'], [A, 'T']]],
+        [[['T2', 'value', V(1)], ['T', 'value', V(2)]], [['T2', 'value', V(3)]]]),
+    scn('prefix-two-conns', ['T'], [[[A, 'T:target_max']], [[A, 'T:target'], [D, 'T:target']]],
+        [[['T', 'target_max', V(1)], ['T', 'target', V(2)]]]),
+    # ---- remote logging not set up: switching it off raises on every *IDN? and disconnect; activations must end anyway
+    scn('broken-logging-ident', ['T'], [[[A, None], I]], [[['T', 'value', V(1)], ['T', 'value', V(2)]]], True),
+    scn('broken-logging-disconnect', ['T'], [[[A, 'T'], X]], [[['T', 'value', V(1)], ['T', 'a', V(2)]]], True),
+    scn('broken-logging-reactivate', ['T', 'T2'], [[[A, 'T:value'], I, [A, 'T2']], [[A, None], X]],
+        [[['T', 'value', V(1)], ['T2', 'value', V(2)]]], True),
 ]
 
 
 def gen_case(rng):
-    mods = rng.choice([['a'], ['a'], ['a', 'b']])
-    specs = [None, None] + mods + [m + ':' + p for m in mods for p in ('value', '_p', 'status')]
-    odd = ['zz', 'a:nosuch', 'a:go', 'zz:value']
+    mods = rng.choice([['T'], ['T'], ['T', 'T2'], ['T', 'T2', 'T_x']])
+    pars = ('value', 'target', 'target_max', '_a', '_ab', 'status')
+    specs = [None, None] + mods + [m + ':' + p for m in mods for p in pars]
+    odd = ['zz', 'T:nosuch', 'T:go', 'zz:value', 'T:tar', 'T:target_', 'T2:', 'T:_']
 
     def script():
-        out = [[A, rng.choice(specs)]]
+        first = rng.choice(specs)
+        out = [[A, first]]
         for _ in range(rng.randint(0, 3)):
             r = rng.random()
-            if r < 0.3:
+            if r < 0.35:
                 out.append([A, rng.choice(specs + odd)])
-            elif r < 0.7:
-                out.append([D, rng.choice(specs + [out[0][1]] * 3 + odd[:2])])
-            elif r < 0.85:
+            elif r < 0.75:
+                # often deactivate something that is a string prefix of an activated specifier
+                shorter = [s2 for s2 in specs if s2 and first and first != s2 and first.startswith(s2)]
+                out.append([D, rng.choice(specs + [first] * 3 + shorter * 3 + odd[:2] + odd[4:])])
+            elif r < 0.88:
                 out.append(I)
             else:
                 out.append(X)
@@ -426,13 +461,13 @@ def gen_case(rng):
         out = []
         for _ in range(rng.randint(1, 3)):
             e = E(rng.randrange(len(ERRS))) if rng.random() < 0.25 else V(rng.randint(1, 9))
-            out.append([rng.choice(mods), rng.choice(FLOATS[:2] if rng.random() < 0.8 else FLOATS), e])
+            out.append([rng.choice(mods), rng.choice(FLOATS), e])
             if e[0] == 'e' and rng.random() < 0.5:
                 out.append(list(out[-1]))
         return out[:3]
     handlers = [script() for _ in range(rng.choice([1, 1, 2, 2, 3]))]
     updaters = [assignments() for _ in range(rng.choice([1, 1, 2]))]
-    return scn('generated', mods, handlers, updaters)
+    return scn('generated', mods, handlers, updaters, rng.random() < 0.15)
 
 
 # ----------------------------------------------------------------------------------------
